@@ -1,29 +1,14 @@
 package scratch
 
 import (
-	"encoding/hex"
 	"fmt"
-	"os"
-	"strings"
 	"testing"
 
-	"github.com/VKCOM/tl/internal/pure"
-	"github.com/VKCOM/tl/internal/pure/onthefly"
+	"github.com/VKCOM/tl/internal/tlast"
 )
 
 func TestX(t *testing.T) {
-	k := pure.NewKernel(&pure.OptionsKernel{TypesWhiteList: "*", TL2WhiteList: "*"})
-	if err := k.AddFileTL1("/repo/internal/tlcodegen/test/tls/cases.tl"); err != nil {
-		t.Fatal(err)
-	}
-	if err := k.Compile(); err != nil {
-		t.Fatal(err)
-	}
-	ins := k.GetObjectInstanceForTests("cases.testInplaceStructArgs2")
-	v := onthefly.CreateValue(ins)
-	hx, _ := os.ReadFile("/tmp/in.hex")
-	in, _ := hex.DecodeString(strings.TrimSpace(string(hx)))
-	rest, err := v.ReadTL2(in, nil)
-	fmt.Println(len(in), len(rest), err)
-	fmt.Printf("%.600s\n", v.WriteJSON(nil, nil))
+	f, err := tlast.ParseTL2("a = A x:int | B // about y y:int z:int;\nb = x:int;\n")
+	fmt.Println(err)
+	fmt.Println(f.String())
 }
